@@ -7,9 +7,11 @@ cfg = json.loads((VERIF / "obligations.json").read_text())
 
 TEXT = {
  "C01": ("other", "Decides the two index calculations nearest-binding lookup rests on: the run-time environment list (rc_list::List new/cons/head/get/skip against a Seq view, Verus, unbounded) and the compile-time numbering of imported/global variables and argument binding (Kani, bounded). Not the equivalence of Id::run with the manual's semantics.", "DESIGN.md 6 C01"),
+ "C02": ("other", "One path step only: Part::{run, paths, update} as trait-contract instances over an abstract container - paths and run yield the same values in order, each yielded path is the input path plus one key that indexes to the value, update addresses the same accessor with the same arguments and `?` mark - for `.[k]` and `.[a:b]`. Not the agreement of Id::run / Id::paths / Id::update on whole filters.", "DESIGN.md 6 C02, 9.1"),
  "C03": ("other", "Laziness as a frame condition over ghost pull/call counters: the real combinators under the interpreter (next_if_one, map_with, flat_map_then, then, collect_if_once, lazy, Stack::next) pull and run only what the delivered prefix needs. Bounded (streams <= 3).", "DESIGN.md 6 C03"),
  "C04": ("other", "The trampoline's stack discipline (Stack::next drops an exhausted caller before pushing its callee; growth bound per step), bounded. The resource claim itself is not a function postcondition and is not decided.", "DESIGN.md 6 C04"),
  "C05": ("proof", "Absence of panics / overflow / out-of-bounds / unwrap failures as the implicit postcondition of every function under contract (Kani checks them on every path), over the full input domain for the complete obligations: position arithmetic, integer and float operators, Num::length, implode, round, try_as_i32, the conversions around jiff, CBOR integer decoding.", "DESIGN.md 6 C05"),
+ "C07": ("other", "The writer half of string round-tripping: for every byte value the real write_byte! macro (with its callers' fall-back expressions) writes the escape RFC 8259 section 7 prescribes (exhaustive over u8 in the thorough tier). The reader and therefore the round trip itself are not decided.", "DESIGN.md 6 C07, 9.1"),
  "C08": ("proof", "Order axioms, eq/cmp coherence, agreement with the mathematical order and hash coherence (over the byte stream fed to any hasher) of the real Num::{cmp,eq,hash} and float_cmp for all machine integers and non-NaN floats, pairs and triples.", "DESIGN.md 6 C08"),
  "C09": ("proof", "Exactness of + - neg % on machine integers against i128 arithmetic for all operand pairs, routing of * through checked_mul, fall-back entered with the same operands; result kinds and bit-exact IEEE values of mixed/float + - * /; round/floor/ceil at the 2^63 boundary.", "DESIGN.md 6 C09"),
  "C10": ("proof", "Kani function contracts on the real position arithmetic (PosUsize::wrap, abs_bound, abs_index, skip_take, as_pos_usize) against an i128 spec of the one position model, for all 2^64 positions/lengths; callers verified against callee contracts.", "DESIGN.md 6 C10"),
@@ -21,9 +23,7 @@ TEXT = {
  "C20": ("proof", "The conversions jaq owns around jiff (epoch scaling, to_iso8601, array_to_datetime field mapping, timestamp_to_epoch) as trait-contract instances over an abstract value type with jiff's constructors ghost-stubbed: exact value passed or error, for every machine integer and float.", "DESIGN.md 6 C20"),
 }
 NA = {
- "C02": "the three evaluators (run / paths / update) are higher-order code over boxed iterators and closures that neither Kani nor Verus can carry a contract through; the only first-order piece under contract (Opt::fail) does not carry the property, and Val-level Part::{run,paths,update} harnesses exceeded the CBMC budget on the real value type",
  "C06": "absence of system calls over all natives and decoders is not a pre/postcondition of any function; neither Kani nor Verus has an OS model or effect system (a syntactic scan would be a different technique)",
- "C07": "writer and reader meet only through core::fmt and a third-party lexer (hifijson); the Val-level to_json;parse_single harness did not finish in CBMC (7 min on one symbolic byte) and shortest-round-trip float printing (ryu) and big integers (num-bigint) are out of reach",
  "C11": "the natively implemented combinators (first/last/limit/skip, range, reduce/foreach) are closures over the interpreter context or boxed streams; the first-order engines under them (funs::range, fold::fold) exceeded the CBMC budget and once_or_empty alone does not carry the property; defs.jq definitions are jq source",
  "C17": "quantifies over process histories (stdout bytes, flush points, exit status across ~25 options); Cli::parse reads the process environment and the main loop is closures over dyn Write - no contractable function states the property",
  "C18": "quantifies over crash points and file-system states; neither verifier models a file system or process death",
